@@ -101,6 +101,45 @@ F: Box<Expr> = {
 pub U: () = { "a" "b", "c" => (), };
 pub V2: ((), Tok) = { U "a" };
 """ % (cfg(), EXT_TOK), "none", []))
+    # token type with a lifetime, error recovery, closures as grammar parameters, visibility forms
+    out.append(("lifetime_recovery", """use crate::support::*;
+use lalrpop_util::ErrorRecovery;
+%s
+grammar<'input, 'e, F>(errors: &'e mut Vec<ErrorRecovery<usize, TokL<'input>, UErr>>, f: &mut F) where F: FnMut(&'input str) -> usize;
+extern {
+    type Location = usize;
+    type Error = UErr;
+    enum TokL<'input> {
+        "+" => TokL::Plus,
+        ";" => TokL::Semi,
+        Word => TokL::Word(<&'input str>),
+        Num => TokL::Num(<i64>),
+    }
+}
+pub%s Stmts: Vec<(usize, i64)> = { <Stmt*> };
+Stmt: (usize, i64) = {
+    <w:Word> <e:Expr> ";" => (f(w), e),
+    <l:@L> <err:!> ";" => { errors.push(err); (l, -1) },
+};
+Expr: i64 = {
+    <l:Expr> "+" <r:Num> => l + r,
+    Num,
+    <w:Word> => w.len() as i64,
+};
+pub(crate) Words: Vec<&'input str> = { Word+ };
+""" % (rng.choice(["", "#[LALR]"]), rng.choice(["", "(crate)", "(super)"])), "none", []))
+    out.append(("tuples_inline", """use crate::support::*;
+%s
+grammar;
+%s
+#[inline]
+Two: (Tok, Tok) = { "a" "b" };
+Three = { Two "c" };
+pub S: (usize, Tok, Tok) = { <l:@L> <(x, y):Two> => (l, x, y) };
+pub T: Vec<((Tok, Tok), Tok)> = { Three* };
+pub U: Option<(Tok, (Tok, Tok))> = { ("c" Two)? };
+pub W: (Tok, Tok) = { <(p, (q, r)):(<"a"> (<"b"> <"c">))> => (p, q) };
+""" % (cfg(), EXT_TOK), "none", []))
     return out
 
 
